@@ -18,6 +18,23 @@ _NOT_MUTATORS = ("std::iter::Iterator::", "std::future::", "std::pin::", "std::o
 WORKSPACE = ("barter", "barter_data", "barter_execution", "barter_instrument", "barter_integration")
 
 
+_PARAMS = None
+
+
+def _param_alias(defn):
+    global _PARAMS
+    if _PARAMS is None:
+        import json
+        import os
+        p = os.path.join(os.path.dirname(os.path.dirname(os.path.abspath(__file__))), "rules", "tables", "params.json")
+        try:
+            with open(p) as fh:
+                _PARAMS = json.load(fh)
+        except (OSError, ValueError):
+            _PARAMS = {}
+    return _PARAMS.get(defn)
+
+
 def callee_path(f):
     """resolved callee: the workspace impl method when the call is statically dispatched into the
     workspace, otherwise the (trait) method as named at the call site"""
@@ -502,6 +519,14 @@ class Body:
         self.inplace = inplace
 
     # ------------------------------------------------------------------ provenance
+    def param_name(self, l):
+        """name under which parameter l is rendered: the name frozen in rules/tables/params.json for this function (same
+        arity) - so that renaming a parameter is invisible to the rules - else its current name"""
+        al = _param_alias(self.defn)
+        if al is not None and len(al) == self.argc and 1 <= l <= len(al):
+            return al[l - 1]
+        return self.locals[l]["name"]
+
     def local_term(self, l, depth=0):
         key = l
         if key in self._term_cache:
@@ -511,7 +536,7 @@ class Body:
         self._term_cache[key] = ("local", l)  # cycle breaker
         ds = self.defs.get(l, [])
         if 1 <= l <= self.argc and not ds:
-            t = ("param", l, self.locals[l]["name"])
+            t = ("param", l, self.param_name(l))
             if self.kind in ("closure", "coroutine") and l == 1:
                 t = ("env",)
             elif self.kind == "closure":
